@@ -658,9 +658,63 @@ def guards_premonitor(ctx, rng):
     return dis
 
 
+def averaged_interp(ctx, rng):
+    """`_find_peak_segments` vs the Lean model on EVERY mask up to length 9 (and random longer ones); pre-monitor of the
+    `_interp_inplace` calls made through `_averaged_interp` by the public classification methods"""
+    import itertools
+    from pybaselines import Baseline, classification as C
+    dis = []
+    lines, exp = [], []
+    masks = [np.array(m, dtype=bool) for n in range(0, 10) for m in itertools.product((False, True), repeat=n)]
+    masks += [rng.random(int(rng.integers(10, 60))) < rng.random() for _ in range(200 if ctx.thorough else 40)]
+    for mask in masks:
+        try:
+            st, en = C._find_peak_segments(mask)
+            real = f'{ints(st)}|{ints(en)}'
+        except Exception as e:  # noqa
+            real = f'exc {type(e).__name__}'
+        lines.append('c05.peaksegs ' + (''.join('1' if m else '0' for m in mask) or '-'))
+        exp.append(real)
+        ctx.case(('peaksegs', tuple(bool(m) for m in mask)), nontrivial=len(mask) > 0 and not mask.all())
+        ctx.count('caller:_find_peak_segments')
+    res = drive(lines)
+    ctx.traces += len(lines)
+    for ln, r, e in zip(lines, res, exp):
+        if r != e:
+            dis.append(model_dis('model:peaksegs', f'_find_peak_segments differs from the Lean model: {ln} model={r} real={e}', {'line': ln}))
+    orig = C._interp_inplace
+    for n in (5, 8, 13, 30, 61):
+        t = np.linspace(0, 1, n)
+        x = np.linspace(0, 5, n)
+        for kind in ('peak', 'edge_peaks', 'noise', 'flat'):
+            y = {'peak': 2 + 5 * np.exp(-((t - 0.5) / 0.1) ** 2), 'edge_peaks': 2 + 5 * np.exp(-(t / 0.1) ** 2) + 5 * np.exp(-((t - 1) / 0.1) ** 2),
+                 'noise': np.zeros(n), 'flat': np.ones(n)}[kind] + rng.normal(0, 0.05, n)
+            for meth, kw in (('golotvin', {'half_window': 2, 'sections': 2}), ('dietrich', {'smooth_half_window': 1, 'poly_order': 1}),
+                             ('std_distribution', {'half_window': 2}), ('fastchrom', {'half_window': 2})):
+                calls = []
+
+                def wrap(x_, y_, a, b):
+                    calls.append((len(x_), len(y_)))
+                    if not (len(x_) == len(y_) >= 1):
+                        raise PreViolation()
+                    return orig(x_, y_, a, b)
+                with patched(C, '_interp_inplace', wrap), warnings.catch_warnings():
+                    warnings.simplefilter('ignore')
+                    try:
+                        getattr(Baseline(x), meth)(y, **kw)
+                    except Exception:  # noqa
+                        pass
+                ctx.case(('avg-interp-pre', meth, n, kind, tuple(calls)), nontrivial=bool(calls))
+                ctx.count('premonitor:' + meth)
+                for (lx, ly) in calls:
+                    if not (lx == ly >= 1):
+                        dis.append(model_dis('pre:averaged_interp', f'{meth}(N={n}, {kind}) calls _interp_inplace with len(x)={lx}, len(y)={ly}'))
+    return dis
+
+
 def correspond_more(ctx, rng, names):
     dis = []
-    for fn in (band_traces, beads_premonitor, bezier_traces, corner_cutting_premonitor, loess_traces, guards_premonitor):
+    for fn in (band_traces, beads_premonitor, bezier_traces, corner_cutting_premonitor, loess_traces, guards_premonitor, averaged_interp):
         dis += fn(ctx, rng)
     dis += interp_traces(ctx, rng, names)
     return dis
